@@ -17,6 +17,26 @@ SLICES_THOROUGH = [("core", 8, 4, 4, 250), ("ws", 8, 3, 3, 250), ("wsmod", 2, 1,
                    ("stack", 8, 4, 4, 100), ("restore", 8, 1, 5, 60)]
 
 
+def _history_grammars():
+    """Reports that depend on what happened EARLIER in the parse: a rule that matched under `!` in an alternative
+    the parse then abandoned, progress, and then a rule at the new position that makes several attempts (one of them
+    again a match under `!`) and fails - the attempt lists must have been started afresh at the new position."""
+    import itertools
+    firsts = ['(!k ~ "q" | "k")', '((!k ~ "q")? ~ "k")', '("k" | !k ~ "q")', '(!(k | a) ~ "q" | k)', '(&k ~ "q" | "k")']
+    bodies = ['!a ~ "x" | c', '!a ~ "x"', '(!a ~ "x")? ~ c', 'c | !a ~ "x"', '!(a | c) ~ "x" | c', '!a ~ !c ~ "x"', '&a ~ "x" | !c ~ a ~ "y"']
+    letters = "kaqxc"
+    inputs = [""]
+    for n in (1, 2, 3):
+        inputs += ["".join(t) for t in itertools.product(letters, repeat=n)]
+    recs = []
+    for f in firsts:
+        for b in bodies:
+            text = 'top = { %s ~ r }\nr = { %s }\na = { "a" }\nc = { "c" }\nk = { "k" }\n' % (f, b)
+            cases = [{"start": st, "inp": [ord(ch) for ch in i]} for st in ("top", "r") for i in inputs]
+            recs.append({"gi": 0, "text": text, "cases": cases})
+    return recs
+
+
 def run(ctx):
     quick = ctx.tier == "quick"
     vh = cargo_build()
@@ -57,6 +77,7 @@ def run(ctx):
     allrecs = []
     for lf in lists:
         allrecs += read_ndjson(lf)
+    allrecs += _history_grammars()
     per = 200
     chunks = [allrecs[i:i + per] for i in range(0, len(allrecs), per)]
     gen_cases = 0
